@@ -40,6 +40,8 @@ CHECKS = {
             "the argument (integer, or string of <= 8 symbolic character classes) and the payload sizes are solver variables; floats havoc'd and confirmed by replay"),
     "C17": ("5/C17", "symbolic execution (symx) of edit_torrent on the fault-injecting abstract filesystem: crash/error at a symbolic operation index; z3",
             "the fault's operation index and the short-write length are solver variables; fault kind and request are configurations"),
+    "C18": ("5/C18", "symbolic execution (symx) of cli.execute -> commands.info/recheck/magnet/create/rename on the abstract filesystem with mutation log (closed-world import guard); final-state and log obligations; z3",
+            "file sizes and damage positions are solver variables, so the log is judged on every iterator path; argument vectors are configurations"),
     "C15": ("5/C15", "symbolic execution (symx) of TorrentFile(align=True)/Hasher vs gap arithmetic and BEP 3 reference; z3",
             "file sizes and listing order are solver variables; modulo by a concrete piece length stays linear"),
 }
